@@ -52,6 +52,32 @@ class HashedValue(Generic[T]):
         return self.id_ == other.id_
 
 
+class _HashedValuesOf:
+    """
+    The hashed items of a source, pulled on demand. A generator is finished for good once an exception left it, so after a
+    pull that ended with an exception (raised by user code while the source was walked) the source is walked again: a
+    collection or a query can be, what was handed out before is memoised by the consumer and skipped.
+    """
+
+    def __init__(self, source: Iterable[Any]):
+        self.source = source
+        self.pending = None
+
+    def __iter__(self):
+        return self
+
+    def __next__(self) -> HashedValue:
+        if self.pending is None:
+            self.pending = (HashedValue(v) if not isinstance(v, HashedValue) else v for v in self.source)
+        try:
+            return next(self.pending)
+        except StopIteration:
+            raise
+        except Exception:
+            self.pending = None
+            raise
+
+
 @dataclass
 class HashedIterable(Generic[T]):
     """
@@ -60,24 +86,14 @@ class HashedIterable(Generic[T]):
     """
     iterable: Iterable[HashedValue[T]] = field(default_factory=list)
     values: Dict[int, HashedValue[T]] = field(default_factory=dict)
-    _source_: Any = field(default=None, init=False, repr=False)
-    """
-    What the items are taken from, kept to walk it again after a walk that was ended by an exception.
-    """
-    _interrupted_: bool = field(default=False, init=False, repr=False)
 
     def __post_init__(self):
         if self.iterable and not isinstance(self.iterable, HashedIterable):
-            self.set_iterable(self.iterable)
+            self.iterable = _HashedValuesOf(self.iterable)
 
     def set_iterable(self, iterable):
         if iterable and not isinstance(iterable, HashedIterable):
-            self._source_ = iterable
-            self.iterable = self._hashed_values_of_(iterable)
-
-    @staticmethod
-    def _hashed_values_of_(iterable) -> Iterable[HashedValue[T]]:
-        return (HashedValue(v) if not isinstance(v, HashedValue) else v for v in iterable)
+            self.iterable = _HashedValuesOf(iterable)
 
     def get(self, key: int, default: Any) -> HashedValue[T]:
         return self.values.get(key, default)
@@ -124,21 +140,7 @@ class HashedIterable(Generic[T]):
         :return: An iterator over the hashed values.
         """
         yield from self.values.values()
-        if self._interrupted_:
-            # the previous walk over the source was ended by an exception, what is memoised is not everything
-            self._interrupted_ = False
-            self.iterable = self._hashed_values_of_(self._source_)
-        pending = iter(self.iterable)
-        while True:
-            try:
-                v = next(pending)
-            except StopIteration:
-                break
-            except Exception:
-                # A generator is finished for good once an exception left it. The source (a collection, a query) is walked
-                # again next time, the items that are memoised already are skipped then.
-                self._interrupted_ = self._source_ is not None
-                raise
+        for v in self.iterable:
             if v.id_ in self.values:
                 # already memoised (and already yielded above), e.g. an object that is listed twice
                 continue
